@@ -8,6 +8,7 @@
 // by CBMC; the stub returns 2 for 4 and an arbitrary value otherwise).  Bounded (5 frames, concrete values).
 //@harness name=calc_gv_uses_eligible_frames_only tier=quick label=bounded(5-frames,concrete-values) props=C12 timeout=900
 //@harness name=conv_gv_rescales_eligible_frames_only tier=quick label=bounded(5-frames,concrete-values) props=C12 timeout=900
+//@harness name=hmm_gradient_is_the_band_product tier=quick label=bounded(4-frames,width-3,concrete-exact-values) props=C12,C05 timeout=900
 use super::*;
 
 fn sqrt_stub(x: f64) -> f64 { if x == 4.0 { 2.0 } else { kani::any() } }
@@ -34,6 +35,29 @@ fn conv_gv_rescales_eligible_frames_only() {
     assert!(g.par.len() == 5 && g.par[0] == -1.0 && g.par[1] == 3.0 && g.par[2] == 99.0 && g.par[3] == -1.0 && g.par[4] == 3.0);
     let (mean, vari) = g.calc_gv();
     assert!(mean == 1.0 && vari == 4.0);
+    kani::cover!(true);
+    std::mem::forget(g);
+}
+
+/// C12 / C05: the HMM gradient used by the GV iteration is g = R c for the UNFACTORED symmetric band matrix R (upper
+/// band stored by rows: entries to the right of the diagonal and, by symmetry, to the left), and the objective is
+/// sum_t w c_t (r_t - g_t / 2) with w = 1 / (win_size * T).  Same exact matrix as K-solve (R c = (11, 23.5, 51.75, 40.5)
+/// for c = (1, 2, 3, 4)); expected values computed over the rationals.
+#[kani::proof]
+#[kani::unwind(8)]
+fn hmm_gradient_is_the_band_product() {
+    let mtx = MlpgMatrix {
+        win_size: 2,
+        length: 4,
+        width: 3,
+        wuw: vec![vec![4.0, 2.0, 1.0], vec![5.0, 2.5, 1.0], vec![9.25, 4.5, 0.0], vec![6.25, 0.0, 0.0]],
+        wum: vec![12.0, 24.0, 52.0, 40.0],
+    };
+    let sw = [true, true, true, true];
+    let g = MlpgGlobalVariance::new(mtx, vec![1.0, 2.0, 3.0, 4.0], &sw);
+    let (obj, grad) = g.calc_hmmobj_derivative();
+    assert!(grad.len() == 4 && grad[0] == 11.0 && grad[1] == 23.5 && grad[2] == 51.75 && grad[3] == 40.5);
+    assert!(obj == 23.546875);
     kani::cover!(true);
     std::mem::forget(g);
 }
